@@ -93,11 +93,12 @@ type shape struct {
 	DenyGetPay bool        `json:"denygetpayload"`
 	MPFiles    []mpFile    `json:"mpfiles,omitempty"`
 	MPBoundary string      `json:"mpboundary,omitempty"`
-	Chunked    bool        `json:"chunked,omitempty"`  // EnableForceChunkedEncoding (multipart written into a pipe)
-	Path       string      `json:"path,omitempty"`     // path of the URL with {name} placeholders (default /p/a)
-	CPParams   [][2]string `json:"cpparams,omitempty"` // client-level path parameters
-	RPParams   [][2]string `json:"rpparams,omitempty"` // request-level path parameters
-	Ordered    [][2]string `json:"ordered,omitempty"`  // SetOrderedFormData pairs
+	Chunked    bool        `json:"chunked,omitempty"`   // EnableForceChunkedEncoding (multipart written into a pipe)
+	CloseConn  bool        `json:"closeconn,omitempty"` // EnableCloseConnection: every attempt asks for "Connection: close"
+	Path       string      `json:"path,omitempty"`      // path of the URL with {name} placeholders (default /p/a)
+	CPParams   [][2]string `json:"cpparams,omitempty"`  // client-level path parameters
+	RPParams   [][2]string `json:"rpparams,omitempty"`  // request-level path parameters
+	Ordered    [][2]string `json:"ordered,omitempty"`   // SetOrderedFormData pairs
 }
 
 type mpFile struct {
@@ -149,6 +150,12 @@ type wireObs struct {
 	Body    string              `json:"body"`
 	CLen    int64               `json:"clen"`
 	BodyErr bool                `json:"bodyerr,omitempty"` // reading the body ended with an error
+	// the fields of the outgoing http.Request that are not headers
+	Close    bool     `json:"close,omitempty"` // Request.Close: "Connection: close" on the wire
+	Host     string   `json:"host,omitempty"`
+	TE       []string `json:"te,omitempty"` // TransferEncoding
+	Proto    string   `json:"proto,omitempty"`
+	Trailers []string `json:"trailers,omitempty"`
 }
 
 type callObs struct {
@@ -303,7 +310,12 @@ func (rs *runState) roundTrip(q *http.Request) (*http.Response, error) {
 		return nil, fmt.Errorf("E2! harness stop: %w", context.Canceled)
 	}
 	w := wireObs{Method: q.Method, URL: q.URL.Scheme + "://" + q.URL.Host + q.URL.Path, Path: q.URL.Path, Query: q.URL.RawQuery,
-		Header: map[string][]string{}, CLen: q.ContentLength}
+		Header: map[string][]string{}, CLen: q.ContentLength, Close: q.Close, Host: q.Host, TE: append([]string{}, q.TransferEncoding...),
+		Proto: fmt.Sprintf("%s/%d.%d", q.Proto, q.ProtoMajor, q.ProtoMinor)}
+	for k := range q.Trailer {
+		w.Trailers = append(w.Trailers, k)
+	}
+	sort.Strings(w.Trailers)
 	for k, vs := range q.Header {
 		w.Header[k] = append([]string{}, vs...)
 	}
@@ -560,6 +572,9 @@ func buildRequest(c *req.Client, p *program) *runState {
 	}
 	for _, e := range sh.RPParams {
 		r.SetPathParam(e[0], e[1])
+	}
+	if sh.CloseConn {
+		r.EnableCloseConnection()
 	}
 	for _, e := range sh.Ordered {
 		r.SetOrderedFormData(e[0], e[1])
@@ -829,7 +844,7 @@ func canonWire(w wireObs, mask map[[2]string]bool) string {
 		}
 		fmt.Fprintf(&sb, "%s: %q\n", k, vs)
 	}
-	fmt.Fprintf(&sb, "cookies=%q hasbody=%v clen=%d\n%s", w.Cookies, w.HasBody, w.CLen, body)
+	fmt.Fprintf(&sb, "cookies=%q hasbody=%v clen=%d close=%v host=%s te=%v proto=%s trailers=%v\n%s", w.Cookies, w.HasBody, w.CLen, w.Close, w.Host, w.TE, w.Proto, w.Trailers, body)
 	return sb.String()
 }
 
@@ -1049,6 +1064,10 @@ func oracle(r *hk.Run, p *program, o *observation) {
 			}
 		}
 	}
+	// "Connection: close" exactly when the caller asked for it
+	if o.Wires[0].Close != p.Shape.CloseConn {
+		fail("connection:close-flag", "first attempt's Close flag is not what the caller set (EnableCloseConnection)", o.Wires[0].Close, p.Shape.CloseConn)
+	}
 	// the URL path with the caller's path parameters filled in
 	if o.Wires[0].Path != p.Shape.expectedPath() {
 		fail("url:path-params", "first attempt's URL path is not the template with the path parameters filled in", o.Wires[0].Path, p.Shape.expectedPath())
@@ -1110,6 +1129,8 @@ func diffField(a, b wireObs) string {
 		return "cookies"
 	case a.Body != b.Body || a.HasBody != b.HasBody || a.CLen != b.CLen:
 		return "body"
+	case a.Close != b.Close || a.Host != b.Host || fmt.Sprint(a.TE) != fmt.Sprint(b.TE) || a.Proto != b.Proto || fmt.Sprint(a.Trailers) != fmt.Sprint(b.Trailers):
+		return "connection-fields"
 	}
 	return "headers"
 }
